@@ -294,7 +294,8 @@ Definition translate_indexed (indirect : bool) (l : side) (r : text) (i : irow) 
               else if negb indirect && is_4_bit n then
                 mk_idx_pkg opc (N.lor raw0 (n_int n)) [] VNone sz sz needs
               else if is_8_bit n then
-                mk_idx_pkg opc (N.lor raw0 (N.lor 136 ib)) [] lv (sz + 1) sz needs
+                do a <- numv_h (n_int n) 2;
+                mk_idx_pkg opc (N.lor raw0 (N.lor 136 ib)) [] a (sz + 1) sz needs
               else if negb (is_4_bit n) then
                 do a <- numv_h (n_int n) 4;
                 mk_idx_pkg opc (N.lor raw0 (N.lor 137 ib)) [] a (sz + 2) sz needs
